@@ -139,6 +139,12 @@ func (c *bconn) run(p proto.Protocol) {
 		time.Sleep(3 * time.Millisecond)
 	}
 	ep.SetState(state.Play)
+	if beh == "late" {
+		// logged in (and configured) promptly; now keep silent until released, then send JoinGame after all
+		close(c.stalled)
+		<-c.release
+		beh = "a"
+	}
 	switch beh {
 	case "kt", "kc":
 		c.answer()
@@ -200,8 +206,8 @@ func (s *server) Dial(ctx context.Context, _ proxy.Player) (net.Conn, error) {
 	s.mu.Unlock()
 	s.w.mu.Lock()
 	s.w.unanswered++
-	if s.w.unanswered > s.w.maxUnanswered {
-		s.w.maxUnanswered = s.w.unanswered
+	if n := s.w.liveUnanswered() + 1; n > s.w.maxUnanswered { // + this dial
+		s.w.maxUnanswered = n
 	}
 	s.w.mu.Unlock()
 	s.w.noteConn(c)
@@ -539,10 +545,53 @@ func (w *world) observe(async bool) string {
 	return last
 }
 
+// liveUnanswered: login attempts not yet answered by their backend on connections that are still open (w.mu held).
+func (w *world) liveUnanswered() int {
+	n := 0
+	for _, c := range w.allConns {
+		c.mu.Lock()
+		if !c.answered && !c.closed && !c.ep.Conn.Closed() {
+			n++
+		}
+		c.mu.Unlock()
+	}
+	return n
+}
+
 func (w *world) resetMax() {
 	w.mu.Lock()
-	w.maxUnanswered = w.unanswered
+	w.maxUnanswered = w.liveUnanswered()
 	w.mu.Unlock()
+}
+
+// connectDeadline issues Connect with a short deadline.
+func (w *world) connectDeadline(name string, d time.Duration) string {
+	srv := w.rig.Proxy.Server(name)
+	if srv == nil {
+		return "noserver"
+	}
+	ctx, cancel := context.WithTimeout(context.Background(), d)
+	defer cancel()
+	r, err := w.player.CreateConnectionRequest(srv).Connect(ctx)
+	return statusName(r, err)
+}
+
+// waitReleased: after a release, every connection that was stalled has either been closed by the proxy or has sent
+// its JoinGame (bounded wait) — so that a late JoinGame is observed if the proxy still handles it.
+func (w *world) waitReleased() {
+	w.mu.Lock()
+	conns := append([]*bconn(nil), w.allConns...)
+	w.mu.Unlock()
+	for _, c := range conns {
+		select {
+		case <-c.stalled:
+		default:
+			continue
+		}
+		for i := 0; i < 400 && !c.isClosed() && !c.isJoined(); i++ {
+			time.Sleep(5 * time.Millisecond)
+		}
+	}
 }
 
 func (w *world) maxSeen() int {
